@@ -14,12 +14,12 @@
 package services
 
 import (
-	"io"
 	"bufio"
 	"bytes"
 	"context"
 	"encoding/hex"
 	"fmt"
+	"io"
 	"net"
 
 	"strconv"
